@@ -151,7 +151,7 @@ def gen_version(repo, ver):
                 kind = classify_args(f["args"])
             else:
                 field = f["name"]
-                kind = RET.get(f["ret"])
+                kind = RET.get(f["ret"]) if not f["args"] else None
             row = rows.get(field)
             if row is None or kind is None:
                 skipped.append("%s::%s(%s)%s" % (ty, f["name"], f["args"], " -> " + f["ret"] if f["ret"] else ""))
